@@ -68,7 +68,7 @@ def run(ctx):
     from checks import _stream
     trs = ctx.path("c01s.ndjson")
     ctx.run_mvh(["c01s", "-out", trs, "-seed", ctx.seed, "-tier", ctx.tier])
-    srecs = _stream.validate_streams(ctx, trs, clause_filter=lambda c: c in {
+    srecs = _stream.validate_streams(ctx, trs, defs=defs, clause_filter=lambda c: c in {
         "no_panic", "frame_matches_consumed_bytes", "clean_stream_yields_every_frame", "independent_of_chunking", "result_kind"})
     total += len(srecs)
     kinds["STREAM"] = len(srecs)
